@@ -214,7 +214,7 @@ def execute(G, c):
     limit = len(c["script"]) + 3
     base_txt = rb.oid_text(c["base"])
     call = ("getnext", base_txt) if c["method"] == "getnext" else ("getbulk", base_txt, c["maxrep"])
-    out = drivers.run_api(G, c["driver"], cfg, call, handler, timeout=2.0, max_steps=limit + 2, max_items=6 * limit + 12)
+    out = drivers.run_api(G, c["driver"], cfg, call, handler, timeout=5.0, max_steps=limit + 2, max_items=6 * limit + 12)
     info = "%s(%s) over %s [%s] script=%r tail=%s" % (c["method"], base_txt, cfg.version, c["driver"], c["script"], c["tail"])
     exp_pairs = [(y[0], value_of(y[2], y[3])[1]) for y in yields]
     if out.kind == "runaway" or len(seen_reqs) > limit:
